@@ -55,6 +55,7 @@ let parse toks = match toks with
   | ["romut"; name; c; f; uc] -> CRoMut (cstr name, comp_of c, f = "1", uc = "1")
   | ["rwmut"; name] -> CRwMut (cstr name)
   | ["nomut"; name; m] -> CNoMut (cstr name, m = "ro")
+  | ["mutin"; name; uc] -> CMutIn (cstr name, uc = "1")
   | ["battery"] -> CBattery
   | ["flush"] -> CFlush
   | ["close"] -> CClose
